@@ -119,7 +119,7 @@ def gen_cases(r, n):
             out.append(("MS default " + " ".join(ops), {"kind": "malformed", "sz": sz, "n": n, "payload": len(payload), "read": rd}))
         elif m < 0.90:
             # small max_length: badbit, writes after an error, then re-open and read
-            items = [gen_item(r, sizes8=True) for _ in range(r.randint(1, 5))]
+            items = [gen_item(r, sizes8=(r.random() < 0.5)) for _ in range(r.randint(1, 5))]
             # aim at the exact fit of the first k items (and one byte either side)
             k = r.randint(1, len(items))
             fit = sum(len(enc(i)) for i in items[:k])
@@ -190,10 +190,6 @@ def oracle(case, meta, impl):
     if meta["kind"] == "typed":
         if impl != "same":
             ty = meta["type"]
-            if ty in ("vec_int", "vec_float", "vec_char"):
-                return (SIG_VEC, "a std::vector of %s written with operator<< and read back with operator>> %s" % (ty[4:], impl))
-            if ty == "vec_rvector":
-                return (SIG_OVERRUN, "a std::vector of cvm::rvector written with operator<<: %s" % impl)
             return ("memstream.typed-roundtrip:" + ty, "a value of type %s written to a memory_stream and read back: %s" % (ty, impl))
         return None
     try:
